@@ -8,14 +8,14 @@ UNITS = ['src/String.c', 'src/Exception.c']
 SEARCH = {'strstr', 'strchr', 'strrchr', 'memchr', 'strpbrk'}
 
 
-def alloc_guards(g, cls):
+def alloc_guards(g, cls, N=None):
     def pred(c, n, cls=cls):
         if c[0] == 'bin' and c[1] in ('==', '!=') and any(x == ('enum', cls) for x in ir.walk(c)) and \
                 any(x[0] in ('arrow', 'dot') and x[2] == 'alloc' for x in ir.walk(c)) and \
                 any(x[0] == 'call' and ir.callee_name(x) == 'header' and ir.top_nocast(x[2][0]) == ('param', 0) for x in ir.walk(c)):
             return c[1] == '=='
         return None
-    return guards_of(g, pred)
+    return guards_of(g, pred, N)
 
 
 def buffer_sites(P, fn, field, N):
@@ -49,8 +49,9 @@ def check_heap_only(P, ctx, unit, field, rule, types, skip=()):
         ctx.fn(fn)
         for (n, c, nm) in sites:
             n_sites += 1
+            NE = util.Norm(P, fn, expand_locals=True, inline=False)
             for cls in ('AllocStack', 'AllocStatic'):
-                gd = alloc_guards(g, cls)
+                gd = alloc_guards(g, cls, NE)
                 ok = dominated_by_guard(g, n['id'], gd, 'ValueError') is not None
                 ctx.check(ok, rule, '%s:%s:%s' % (fname, nm, cls), site(fn, n['line']),
                           '%s of the %s buffer is dominated by the refusal (ValueError) of %s objects' % (nm, types, cls),
